@@ -125,11 +125,133 @@ def obligations(tier, seed):
     out += _id_range_kernel(core)
     out += _insert_before_send(core)
     # responses inside array frames (next to notifications) and the entries of a batch are calls too
+    out += batch_id_obligations(core)
     from . import C05 as _c05, C12 as _c12
     for r in _c05.array_obligations(core, (2,) if tier == "quick" else (2, 3), skip_scenario="c03_mixed_frame"):
         if r["name"].endswith(":none-skipped"):
             out.append(r)
     for r in _c12.ws_front_obligations(core, (2,) if tier == "quick" else (2, 3)):
+        out.append(r)
+    return out
+
+
+def _atomic_models():
+    def m_fetch_add(ex, st, callee, args, dty, site):
+        """Atomic::<usize>::fetch_add(&a, v, order): returns the old value, stores old + v (wrapping)"""
+        a = args[0]
+        if not isinstance(a, Ptr):
+            return NotImplemented
+        old = ex.read_node(a.node)
+        if isinstance(old, Node):
+            # the atomic's cell: one more level (UnsafeCell / value)
+            return NotImplemented
+        old = ex.as_bv(old)
+        a.node.val = old + ex.as_bv(args[1])
+        return old
+    return [(r"^Atomic::<usize>::fetch_add$", m_fetch_add),
+            (r"^<usize as TryInto<u64>>::try_into$", lambda ex, st, c, a, d, s: ex.mk_variant("Result", 0, "Ok", ex.as_bv(a[0])))]
+
+
+def _same_reading(a, b):
+    """two uninterpreted readings (e.g. Vec::len of the same, untouched vector, made by two separate calls) denote the same value: compare modulo the calls' sequence numbers"""
+    norm = lambda t: re.sub(r"/\d+\(", "(", re.sub(r",\s*\d+\)", ")", re.sub(r"\s+", " ", str(z3.simplify(t)))))
+    return norm(a) == norm(b)
+
+
+def batch_id_obligations(core, httpc=None):
+    """The wire ids of a batch stay its own while it is in flight: (1) both clients take the batch's first id from the id manager and derive the range from exactly the
+    batch's length; (2) after that allocation, no id the manager hands out later - to a call, a subscription or another batch - lies inside the range."""
+    out = []
+    kinds = R.source_tables()["enums"]["IdKind"]
+    fi_cur, fi_kind = R.field_index("RequestIdManager", "current_id"), R.field_index("RequestIdManager", "id_kind")
+    clients = [("ws", core, r"^fn async_client::<impl at core/src/client/async_client/mod\.rs:[\d: ]+>::batch_request::\{closure#0\}\(_1: Pin<&mut \{async block@core/src/client/async_client/mod\.rs"),
+               ]
+    # (the HTTP client sends every batch in an exchange of its own: ids shared between exchanges have no consequence there, so nothing is claimed about them)
+    for label, crate, rx in clients:
+        b = R.find_body(crate, rx)
+        ex, ctx, paths = P.explore(crate, b, extra_models=list(T.CLIENT_MODELS[:0]) + list(M.TRACING_MODELS), max_paths=3000)
+        bad = [(p.kind, p.detail) for p in paths if p.kind in ("unsupported", "limit")]
+        sites = {}
+        for p in paths:
+            for e in p.events:
+                if e.kind == "call" and e.callee == "generate_batch_id_range":
+                    sites.setdefault((str(to_term(e.args[0])), str(to_term(e.args[1]))), (e, p))
+        name = f"prov:{label}:batch_request:id-allocation"
+        if bad or len(sites) != 1:
+            out.append(R.Result(engine="mirsym", name=name, kind="provenance", status="unsupported" if bad else "site-missing", detail=str(bad[:1] or f"{len(sites)} allocation sites")[:300], bodies=[b.name]))
+            continue
+        (e, p), = sites.values()
+        t0 = to_term(e.args[0])
+        m = re.match(r"call:RequestIdManager::(\w+)/\d+$", t0.decl().name()) if z3.is_app(t0) else None
+        meth = m.group(1) if m else None
+        ops = list(t0.children())[:-1] if m else []        # the last operand is the call's sequence number
+        len_term = to_term(e.args[1])
+        takes_len = len(ops) >= 2
+        mgr_txt = re.sub(r"\s+", " ", str(ops[0])) if ops else ""
+        own_mgr = re.fullmatch(r"(call:<Arc<RequestIdManager> as Deref>::deref/\d+\()?ptr:arg1\.0\.\*\.\d+\.\*\.\d+(, \d+\))?", mgr_txt) is not None
+        ok = meth is not None and own_mgr and (not takes_len or _same_reading(ops[1], len_term))
+        out.append(R.decide(name, "provenance", z3.BoolVal(not ok), [p.cond()], bodies=[b.name],
+                            desc=f"the {label} client's batch_request derives its id range from an id taken from its own id manager and from exactly the number of entries of the batch "
+                                 f"(here: RequestIdManager::{meth}{' with that same length' if takes_len else ''})", bounds="every path to the allocation", keydetail="batch-id-source"))
+        if meth is None:
+            continue
+        # ---- kernel: allocate (real method, real generate_batch_id_range), then hand out the next id(s): none may fall inside the range
+        S_ = r"^fn client::<impl at core/src/client/mod\.rs:[\d: ]+>::"
+        b_alloc = R.find_body(core, S_ + meth + r"\(_1: &RequestIdManager")
+        b_next = R.find_body(core, S_ + r"next_request_id\(_1: &RequestIdManager")
+        b_range = R.find_body(core, r"^fn generate_batch_id_range\(_1: jsonrpsee_types::Id<'_>, _2: u64\)")
+        kctx = T.make_ctx(core)
+        kctx.models = [(re.compile(rx_), f) for rx_, f in _atomic_models()] + kctx.models
+        kctx.inline = [M.crate_inliner(core)]
+        kex = Executor(kctx)
+        c, n = z3.BitVec("counter", 64), z3.BitVec("batch.len", 64)
+        mgr = Node("mgr", "RequestIdManager")
+        cur = Node("mgr.cur", "CurrentId")
+        cell = Node("mgr.cur.0", "usize")
+        cell.val = c
+        cur.kids[0] = cell
+        kd = Node("mgr.kind", "IdKind")
+        kdd = Node("mgr.kind.discr", "isize")
+        kdd.val = z3.BitVecVal(kinds.index("Number"), 64)
+        kd.kids["discr"] = kdd
+        mgr.kids[fi_cur], mgr.kids[fi_kind] = cur, kd
+        pre = [z3.UGE(n, 1), z3.BVAddNoOverflow(c, n, False), z3.BVAddNoOverflow(c + n, z3.BitVecVal(2, 64), False)]
+        viol, reach, kbad = [], [], []
+        for p1 in kex.run(b_alloc, args=[Ptr(mgr)] + ([n] if takes_len else []), pc0=pre):
+            if p1.kind != "return":
+                kbad.append((p1.kind, p1.detail))
+                continue
+            mgr1 = kex.pointee(p1.frame["mem"][(0, b_alloc.params[0][0])]) if hasattr(p1, "frame") and p1.frame else mgr
+            for p2 in kex.run(b_range, args=[p1.ret, n], pc0=list(p1.pc)):
+                if p2.kind != "return":
+                    kbad.append((p2.kind, p2.detail))
+                    continue
+                d = z3.simplify(kex.discr_of(p2.ret))
+                if not z3.is_bv_value(d) or d.as_long() != 0:
+                    continue
+                rg = kex.read_node(kex.child(p2.ret, ("Ok", 0), None))
+                lo, hi = kex.read_node(kex.child(rg, 0, "u64")), kex.read_node(kex.child(rg, 1, "u64"))
+                for p3 in kex.run(b_next, args=[Ptr(mgr1)], pc0=list(p2.pc)):
+                    if p3.kind != "return":
+                        kbad.append((p3.kind, p3.detail))
+                        continue
+                    later = kex.read_node(kex.child(p3.ret, ("Number", 0), "u64"))
+                    pc = p3.cond()
+                    reach.append(pc)
+                    viol.append(z3.And(pc, z3.UGE(later, lo), z3.ULT(later, hi)))
+        kname = f"kernel:{label}:batch-ids-not-handed-out-again"
+        reach_l = R.live_reach(viol, reach, kbad)
+        if kbad or not reach_l[0]:
+            out.append(R.Result(engine="mirsym", name=kname, kind="kernel", status="unsupported" if kbad else "vacuous", detail=str(kbad[:1])[:300], bodies=[b_alloc.name, b_range.name, b_next.name]))
+            continue
+        r = R.decide(kname, "kernel", z3.Or(*viol), [z3.Or(*reach_l[0])], bodies=[b_alloc.name, b_range.name, b_next.name],
+                     desc=f"after a batch of n entries took its ids (RequestIdManager::{meth}, generate_batch_id_range), the next id the manager hands out - to a call, a subscription or "
+                          "another batch made while the first is in flight - lies outside that batch's range, so no two requests in flight share a wire id and a reply that lacks an "
+                          "entry can never be mistaken for the reply to another batch",
+                     bounds="counter any u64, batch length any n >= 1 (no wrap-around of the counter); numeric ids", keydetail="batch-ids-reused",
+                     replay=dict(scenario="c12_two_batches", vars={"n": n}, fixed={"client": label}, region=z3.And(z3.UGE(n, 2), z3.ULE(n, 6))))
+        if r["status"] == "violated":
+            r["key"] = "mirsym:c12:batch-ids-handed-out-again"
         out.append(r)
     return out
 
